@@ -132,7 +132,7 @@ CHECKS = {
    note="Every genes_at_a_time >= 1 (Model/SelectionK.v: argsort only when a slot was newly filled, k pops with nothing recomputed, breaks only between batches): c12_batch_one_is_step, c12_batch_no_duplicates, c12_batch_coverage, c12_batch_spec_holds, "
         "c12_batch_trace_legal (a batch has 1..k genes, each of positive and maximal utility; shorter than k only when nothing useful is left), c12_batch_invariant_preserved, c12_batch_terminates, c12_batch_iterations_bounded, "
         "c12_batch_length_exact, c12_batch_genes_are_markers, c12_batch_full_invariant_preserved; the model first showed that for k >= 2 the real loop selected genes marking no pair of the parent and could raise IndexError / RuntimeError on valid tables (findings F23-F25): "
-        "repaired in /repo (0bb86f4: a batch stops early when no useful gene is left), and the three refutations became the positive c12_batch_in_query_and_marker, c12_batch_never_raises, c12_batch_full_spec (spec_c12 on every completed run, every k). np.argsort tie order is an input (trace replay); the coverage theorem's hypothesis (no gene both ways) is checked on every generated table and shown "
+        "repaired in /repo (0bb86f4: a batch stops early when no useful gene is left), and the three refutations became the positive c12_batch_in_query_and_marker, c12_batch_never_raises, c12_batch_full_spec (spec_c12 on every completed run, every k). np.argsort tie order is an input for the trace replay, and the code's own rule is modelled too: run_with / select_with for an arbitrary pick rule of the utility-array history, pick_pop = numpy's stale-argsort pop for ANY argsort (c12_pick_function_order_irrelevant, c12_rules_respect, c12_select_with_is_legal_run, c12_greedy_is_pick_instance, c12_recorded_trace_is_pick_instance; tie tags 1262-1263: the real np.argsort results handed back as a table, gene by gene); the behemoth / downsampled table is modelled (downsample_pairs) and proved to carry the same marks (c12_downsample_preserves_marks, c12_threshold_core, c12_threshold_irrelevant; tie 1260); per-parent loop with short-circuit, overlap refusal and override lookup (select_parent: c12_parent_short_circuit, c12_parent_run_has_pairs, c12_empty_overlap_refused, c12_overlap_needed, c12_override_applies_to_its_parent_only; tie 1261 against select_all_markers); c12_selected_names_are_query_markers states the clause by gene NAME of the reference file; c12_greedy_order_irrelevant is about a tie-break the code does not use (kept, labelled); the coverage theorem's hypothesis (no gene both ways) is checked on every generated table and shown "
         "necessary by an Example; several reference files, parent_list and drop_level not exercised.",
    technique="Coq proof of hand-written Gallina model + trace-refinement correspondence check (choice sequences of the real code replayed through the extracted model)", ref="DESIGN.md section 7 C12"),
  'C13': dict(
